@@ -77,7 +77,7 @@ PROPS = {
     'C07': dict(
         level='model_checking', verus_units=['core'],
         kani=True,
-        kani_select=dict(quick=r'^k_task_(map_fil|filtermap_fil)_col_x_n3|^k_glue_(map_fil|filtermap_fil)_col_x_n2c1|^k_api_par2_map_collect_x',
+        kani_select=dict(quick=r'^k_task_(map_fil|filtermap_fil)_col_x_n3|^k_glue_(map_fil|filtermap_fil)_col_x_n2c1|^k_api_par2_(map|fil)_collect_x',
                          thorough=r'^k_task_\w+_col_x_|^k_glue_\w+_col_x_|^k_api_\w+_collect_x_n'),
         trusted_base=[T1, T4, T5, RSCHED, STUBS, MODEL],
         assumptions=[TASK_BOUND, 'flat_map collect_x kernels are in the thorough tier only (each harness needs 6-10 min of CBMC time)'],
